@@ -17,3 +17,13 @@ def div(a, b):
     if ta is int and tb is I:
         return box(r_div(int(a), int(b)))
     return a / b
+
+
+def join(sep, parts):
+    """`sep.join(parts)` that also accepts symbolic strings among the parts."""
+    parts = list(parts)
+    if all(isinstance(x, str) for x in parts):
+        return sep.join(parts)
+    from . import strings
+
+    return strings.join(sep, parts)
